@@ -8,18 +8,26 @@
        evaluate(phi, t) = TRUE  <->  t |= phi      evaluate(phi, t) = FALSE  <->  not t |= phi
    never UNKNOWN when Z3 decides the instantiated atoms, never an exception; same for
    ISLaSolver.check.  The faithful model REFUTES the full statement in two classes
-   (C03_eval_wide_refuted, C03_evaluate_vacuous_refuted); what is proved for ALL inputs is
+   (C03_eval_wide_refuted, C03_mexpr_eps_shape_refuted; a third, vacuous universal quantifiers
+   dropped by instantiation, was repaired in /repo by 0230f8f: C03_evaluate_vacuous_agrees); what is proved for ALL inputs is
    C03_eval_correct_partial: the statement for the evaluation proper (evaluate_legacy on the
    instantiated formula) under the guards
      narrow ref         (no child index >= 28: excludes K_wide),
      fresh_name         (no quantifier re-uses a name in scope: excludes K_rebound_name),
+     names2             (the binary structural predicates covered are before, after, inside,
+                        same_position, different_position, direct_child; a formula that uses
+                        `consecutive` is EXCLUDED: /repo's consecutive() is defective on node pairs
+                        with a non-root common prefix — C04 finding consecutive-relative-paths,
+                        class K_cons_rel, fix withdrawn — and below <start> almost every pair has
+                        one, so the guard is stated on the formula, not on the path pairs;
+                        C03_eval_consecutive_refuted is the witness),
      m = None           (no match expressions) and no numeric quantifiers,
    for abstract SMT atoms under the explicit premise that every instantiated atom is decided
    as its meaning says, and C03_eval_correct_atoms with NO premise on atoms for the concrete
    family (string (in)equality, str.len comparisons, true/false).
    Missing for the full statement: match expressions (the model has them, the theorem does not),
-   the instantiation step inst_const (modelled, tied by the correspondence; K_vacuous_forall
-   shows it is not meaning-preserving), the second strategy for numeric quantifiers (Z3 oracle). *)
+   the instantiation step inst_const (modelled, tied by the correspondence; no lemma yet that it
+   preserves `models`), the second strategy for numeric quantifiers (Z3 oracle). *)
 From ISLA Require Import Semantics Eval EvalAtoms EvalFacts.
 From Coq Require Import ZArith.
 
@@ -97,14 +105,14 @@ Theorem C03_eval_wide_refuted :
 Proof. exact eval_wide_refuted. Qed.
 Print Assumptions C03_eval_wide_refuted.
 
-(* refuted: evaluate()/check() on a vacuous universal quantifier (known finding K_vacuous_forall) *)
-Theorem C03_evaluate_vacuous_refuted :
+(* former finding K_vacuous_forall (fixed: /repo 0230f8f): on its witness the repaired evaluate()
+   and check() agree with the specification (vacuously true) *)
+Theorem C03_evaluate_vacuous_agrees :
   shape_ok W2_tree = true /\ is_openT W2_tree = false /\ uniq_ids W2_tree /\ narrow W2_tree /\
-  m_kvac W2_tree W_cst W2_formula = true /\
-  m_evaluate W2_tree W_cst W2_formula = Ok FF /\ m_check W2_tree W_cst W2_formula = Ok false /\
+  m_evaluate W2_tree W_cst W2_formula = Ok TT /\ m_check W2_tree W_cst W2_formula = Ok true /\
   sat atom_denote W2_tree W_cst W2_formula.
-Proof. exact evaluate_vacuous_refuted. Qed.
-Print Assumptions C03_evaluate_vacuous_refuted.
+Proof. exact evaluate_vacuous_agrees. Qed.
+Print Assumptions C03_evaluate_vacuous_agrees.
 
 (* refuted (match expressions): the verdict depends on how an epsilon expansion is represented
    (known finding K_mexpr_eps_shape); same string, same derivation, TT on the parser's tree, FF on
@@ -126,3 +134,12 @@ Example C03_satb_hypotheses_satisfiable :
   satb W1_tree atom_dec 0 env_empty W1_formula = false.
 Proof. split; [exact atom_dec_spec|]. repeat split; vm_compute; reflexivity. Qed.
 Print Assumptions C03_satb_hypotheses_satisfiable.
+
+(* refuted: a formula using `consecutive` on siblings x, y, z below a non-root node (C04 finding
+   consecutive-relative-paths, class K_cons_rel, open): evaluator TT, specification false *)
+Theorem C03_eval_consecutive_refuted :
+  shape_ok W4_tree = true /\ is_openT W4_tree = false /\ uniq_ids W4_tree /\ narrow W4_tree /\
+  K_cons_rel [1;0] [1;2] = true /\
+  m_legacy W4_tree W4_formula = Ok TT /\ ~ models atom_denote W4_tree env_empty W4_formula.
+Proof. exact eval_consecutive_refuted. Qed.
+Print Assumptions C03_eval_consecutive_refuted.
